@@ -163,7 +163,9 @@ def run_check():
     ck.do_audit()
     import_ws()
     n = 40 if ck.tier == "quick" else 500
-    res = pmap(make_case, [(ck.seed, i) for i in range(n)])
+    from ..common import replay_ids
+
+    res = pmap(make_case, [(ck.seed, i) for i in replay_ids(ck, n)])
     info = {}
     for recs in res:
         for r in recs:
